@@ -6,16 +6,17 @@ for registered names / IPv4 literals and for bracketed IPv6 literals.
 namespace C06
 open C06.Gen
 
-/-- a host character that cannot be mistaken for a delimiter of the authority -/
-def hostChar (c : Nat) : Bool := c < 128 && notIn authStop c && c != 64 && c != 58 && c != 91
+/-- a host character that cannot be mistaken for a delimiter of the authority (ASCII or not: with minimal quoting a
+    non-ASCII host is written and read back as it is) -/
+def hostChar (c : Nat) : Bool := notIn authStop c && c != 64 && c != 58 && c != 91
 
 /-- characters of an IPv6 literal: hexadecimal digits, `:` and `.` -/
 def v6Char (c : Nat) : Bool := isHexDigit c || c == 58 || c == 46
 
 theorem hostChar_spec {c : Nat} (h : hostChar c = true) :
-    c < 128 ∧ notIn authStop c = true ∧ c ≠ 64 ∧ c ≠ 58 ∧ c ≠ 91 := by
-  simp only [hostChar, Bool.and_eq_true, decide_eq_true_eq, bne_iff_ne, ne_eq] at h
-  exact ⟨h.1.1.1.1, h.1.1.1.2, h.1.1.2, h.1.2, h.2⟩
+    notIn authStop c = true ∧ c ≠ 64 ∧ c ≠ 58 ∧ c ≠ 91 := by
+  simp only [hostChar, Bool.and_eq_true, bne_iff_ne, ne_eq] at h
+  exact ⟨h.1.1.1, h.1.1.2, h.1.2, h.2⟩
 
 theorem auth_stops_ok : notIn authStop 58 = true ∧ notIn authStop 64 = true ∧
     notIn authStop 91 = true ∧ notIn authStop 93 = true ∧ notIn authStop 46 = true ∧
@@ -145,7 +146,6 @@ structure HostFacts (env : Env) (u : URL) : Prop where
   chars : ∀ x ∈ hostinfo u, x ≠ 64 ∧ notIn authStop x = true
   split : splitHostPort (hostinfo u) = .ok (hostText u, portBack u)
   host : parseHost env (hostText u) = .ok (u.family, u.host)
-  ascii : isAsciiText u.host = true
 
 theorem portText_chars {u : URL} (hp : PortNat u) : ∀ x ∈ portText u, x ≠ 64 ∧ notIn authStop x = true := by
   intro x hx
@@ -172,12 +172,12 @@ theorem hostFacts_name (env : Env) (u : URL) (hne : u.host ≠ []) (hp : PortNat
     (hfam : u.family = if env.fam4 u.host then .inet else .none) : HostFacts env u := by
   have h6 : u.family ≠ .inet6 := by rw [hfam]; split <;> simp
   have hht : hostText u = u.host := by simp [hostText, h6]
-  have h58 : ∀ x ∈ u.host, x ≠ 58 := fun x hx => (hostChar_spec (hh x hx)).2.2.2.1
-  refine ⟨by simp [hostinfo, hht, hne], ?_, ?_, ?_, ?_⟩
+  have h58 : ∀ x ∈ u.host, x ≠ 58 := fun x hx => (hostChar_spec (hh x hx)).2.2.1
+  refine ⟨by simp [hostinfo, hht, hne], ?_, ?_, ?_⟩
   · intro x hx
     rw [hostinfo, hht, List.mem_append] at hx
     rcases hx with hx | hx
-    · have := hostChar_spec (hh x hx); exact ⟨this.2.2.1, this.2.1⟩
+    · have := hostChar_spec (hh x hx); exact ⟨this.2.1, this.1⟩
     · exact portText_chars hp x hx
   · rw [hostinfo, hht]
     rcases portText_cases u hp with ⟨hn, ht⟩ | ⟨p, hpp, ht⟩
@@ -199,7 +199,7 @@ theorem hostFacts_name (env : Env) (u : URL) (hne : u.host ≠ []) (hp : PortNat
         cases hhost : u.host with
         | nil => exact absurd hhost hne
         | cons x xs =>
-          have : x ≠ 91 := (hostChar_spec (hh x (by rw [hhost]; simp))).2.2.2.2
+          have : x ≠ 91 := (hostChar_spec (hh x (by rw [hhost]; simp))).2.2.2
           simp [this]
       simp only [hc, Bool.not_true, Bool.false_eq_true, if_false, hhead]
       rw [ha, hb]
@@ -208,10 +208,6 @@ theorem hostFacts_name (env : Env) (u : URL) (hne : u.host ≠ []) (hp : PortNat
     unfold parseHost
     have hm : 58 ∉ u.host := fun h => h58 58 h rfl
     simp [hne, hm, hfam]
-  · unfold isAsciiText
-    rw [List.all_eq_true]
-    intro c hc
-    simpa using (hostChar_spec (hh c hc)).1
 
 /-! first-occurrence splitting of a text that contains the separator -/
 
@@ -278,7 +274,7 @@ theorem hostFacts_v6 (env : Env) (u : URL) (hp : PortNat u)
   have ha : after 58 (hostinfo u) = after 58 u.host ++ 93 :: portText u := by
     rw [hi, after_append_mem hm]; simp [after, neq, List.dropWhile]
   have h93 : ∀ x ∈ after 58 u.host, x ≠ 93 := fun x hx => (v6Char_spec (hh x (mem_after hx))).2.2.2.1
-  refine ⟨by simp [hi], ?_, ?_, ?_, ?_⟩
+  refine ⟨by simp [hi], ?_, ?_, ?_⟩
   · intro x hx
     rw [hi] at hx
     simp only [List.mem_append, List.mem_cons] at hx
@@ -304,10 +300,6 @@ theorem hostFacts_v6 (env : Env) (u : URL) (hp : PortNat u)
     have hl : (91 :: (u.host ++ [93])).getLast? = some 93 := by
       rw [List.getLast?_cons]; simp [List.getLast?_append]
     simp [h58, hl, hfam, h6]
-  · unfold isAsciiText
-    rw [List.all_eq_true]
-    intro c hc
-    simpa using (v6Char_spec (hh c hc)).1
 
 theorem hostFacts_of_ok (env : Env) (full : Bool) (u : URL) (hne : u.host ≠ []) (hp : PortNat u)
     (h : HostOK env full u) : HostFacts env u := by
